@@ -653,6 +653,8 @@ fn run_program_under_loom(prog: &Program) -> Result<(u64, BTreeSet<String>), Str
     let (i2, o2, p2) = (iters.clone(), outcomes.clone(), prog.clone());
     let bound = match std::env::var("C08_BOUND").ok().as_deref() {
         Some("none") => None,
+        // "3/2": bound 3 for two-thread programs with at most four operations, 2 for the rest
+        Some("3/2") => Some(if prog.threads.len() == 2 && prog.threads.iter().map(Vec::len).sum::<usize>() <= 4 { 3 } else { 2 }),
         Some(n) => n.parse().ok(),
         None => Some(2),
     };
@@ -791,7 +793,7 @@ fn main() {
         println!("{}\n{}", r[0].stdout, r[0].stderr);
         std::process::exit(0);
     }
-    let bound = std::env::var("C08_BOUND").unwrap_or_else(|_| if thorough { "3".into() } else { "2".into() });
+    let bound = std::env::var("C08_BOUND").unwrap_or_else(|_| if thorough { "3/2".into() } else { "2".into() });
     let programs = generate(thorough);
     if std::env::var("C08_COUNT").is_ok() {
         let mut by: BTreeMap<String, usize> = BTreeMap::new();
@@ -869,7 +871,7 @@ fn main() {
     c.transitions = total_iters;
     c.traces_validated = total_iters;
     c.rule = format!(
-        "programs = kind{{auto,manual}} x storage{{boxed,embedded}} x (A: two threads, every legal op sequence over set/reset/try_wait/poll-own-waiter/drop-own-waiter, unordered pairs, total length <= {} | B: one waiter pre-registered by main and inherited by thread 2, total length <= {} | C: three threads, one op each (last thread <= {}), pre-registered waiter), at least one set; loom explores every interleaving with preemption bound {bound}; every execution's history + post-join probe checked for linearizability by exhaustive search; distinct = program; states = loom executions",
+        "programs = kind{{auto,manual}} x storage{{boxed,embedded}} x (A: two threads, every legal op sequence over set/reset/try_wait/poll-own-waiter/drop-own-waiter, unordered pairs, total length <= {} | B: one waiter pre-registered by main and inherited by thread 2, total length <= {} | C: three threads, one op each (last thread <= {}), pre-registered waiter), at least one set; loom explores every interleaving with preemption bound {bound} ('3/2' = 3 for two-thread programs with at most four operations, 2 for five-operation and three-thread programs); every execution's history + post-join probe checked for linearizability by exhaustive search; distinct = program; states = loom executions",
         if thorough { 5 } else { 4 },
         if thorough { 4 } else { 3 },
         if thorough { 2 } else { 1 }
